@@ -126,7 +126,13 @@ func TestVerifC13(t *testing.T) {
 		r.Begin(id)
 		p := &Prefix{Auto: true, Prefix: mp("::/64"), OnLink: flags[fi].onlink, Autonomous: flags[fi].auto,
 			ValidLifetime: 24 * time.Hour, PreferredLifetime: time.Duration(fi+1) * time.Hour}
-		p.Addrs = func() ([]system.IP, error) { return vIPs(list), nil }
+		// as parsed configurations have it: an epoch long past (a non-deprecated
+		// stanza must advertise its constants whatever the kernel says about the
+		// addresses, now and after they are gone)
+		p.Epoch = time.Date(2024, 1, 1, 0, 0, 0, 0, time.UTC)
+		p.TimeNow = func() time.Time { return p.Epoch.Add(7 * time.Hour) }
+		cur := list
+		p.Addrs = func() ([]system.IP, error) { return vIPs(cur), nil }
 		ra := &ndp.RouterAdvertisement{}
 		var err error
 		if !r.Guard(id, "panic", func() { err = p.Apply(ra) }) {
@@ -136,6 +142,38 @@ func TestVerifC13(t *testing.T) {
 			r.Violation(id, "unexpected-error", "wildcard prefix expansion failed: "+err.Error(), map[string]any{"addrs": list})
 			return
 		}
+		defer func() {
+			// second generation on the same plugin after the kernel-deprecated
+			// addresses have disappeared
+			var rest []model.SysIP
+			for _, a := range list {
+				if !a.Deprecated {
+					rest = append(rest, a)
+				}
+			}
+			if len(rest) == len(list) {
+				return
+			}
+			cur = rest
+			_ = p.String()
+			ra2 := &ndp.RouterAdvertisement{}
+			if err := p.Apply(ra2); err != nil {
+				r.Violation(id, "unexpected-error", "second expansion failed: "+err.Error(), map[string]any{"addrs": rest})
+				return
+			}
+			want2 := model.WildPrefixes(rest)
+			ok := len(ra2.Options) == len(want2)
+			for i, o := range ra2.Options {
+				pi, isPI := o.(*ndp.PrefixInformation)
+				if !ok || !isPI || netip.PrefixFrom(pi.Prefix, int(pi.PrefixLength)) != want2[i] || pi.ValidLifetime != p.ValidLifetime || pi.PreferredLifetime != p.PreferredLifetime {
+					ok = false
+				}
+			}
+			r.Count("second_generations_compared", 1)
+			if !ok {
+				r.Violation(id, "wrong-prefix-set", fmt.Sprintf("second generation (kernel-deprecated addresses gone) gave %v, want %v with the configured lifetimes", model.FromNDP(ra2).Options, want2), map[string]any{"first_addrs": list, "addrs": rest})
+			}
+		}()
 		want := model.WildPrefixes(list)
 		var got []string
 		ok := true
@@ -365,6 +403,15 @@ func TestVerifC15(t *testing.T) {
 			}
 			return out, nil
 		}
+		// One stanza in three is deprecated and read against a clock that advances
+		// with every reading: the routes of one RA still share one lifetime.
+		advancing := vlib.Hash64(id)%3 == 0
+		reads := 0
+		if advancing {
+			p.Deprecated = true
+			p.Epoch = time.Date(2024, 1, 1, 0, 0, 0, 0, time.UTC)
+			p.TimeNow = func() time.Time { reads++; return p.Epoch.Add(10*time.Second + time.Duration(reads)*time.Second) }
+		}
 		ra := &ndp.RouterAdvertisement{}
 		var err error
 		if !r.Guard(id, "panic", func() { err = p.Apply(ra) }) {
@@ -373,6 +420,23 @@ func TestVerifC15(t *testing.T) {
 		if err != nil {
 			r.Violation(id, "unexpected-error", "wildcard route expansion failed: "+err.Error(), map[string]any{"routes": list})
 			return
+		}
+		if advancing {
+			var first time.Duration = -1
+			for _, o := range ra.Options {
+				if ri, ok := o.(*ndp.RouteInformation); ok {
+					if first < 0 {
+						first = ri.RouteLifetime
+					}
+					lo, hi := p.Lifetime-10*time.Second-time.Duration(reads)*time.Second, p.Lifetime-11*time.Second
+					if ri.RouteLifetime != first || ri.RouteLifetime < lo || ri.RouteLifetime > hi {
+						r.Violation(id, "route-lifetimes-differ", fmt.Sprintf("routes of one deprecated stanza in one RA carry lifetimes %v and %v (clock advancing 1 s per reading, %d readings)", first, ri.RouteLifetime, reads), map[string]any{"routes": list})
+						return
+					}
+					ri.RouteLifetime = p.Lifetime // the comparison below is about the set
+				}
+			}
+			r.Count("deprecated_wildcard_generations", 1)
 		}
 		want := model.WildRoutes(list)
 		ws := make([]string, len(want))
